@@ -554,7 +554,67 @@ func runC20(c *engine.Ctx) {
 			}
 		}
 		c.Check(viaV >= 1 && viaC >= 1, "pkg/nathole.Controller.HandleVisitor>both-parties", hv.Pos(), n, nil, "instructions (or the analysis error) go to both the visitor's and the owner's control (visitor sends=%d, client sends=%d)", viaV, viaC)
-		c.Floor(n, 5)
+		// per path: once both parties are known (the analysis ran), every way out of HandleVisitor has sent to both
+		// controls, whether the analysis succeeded or failed
+		if an := method(c, "pkg/nathole", "Controller", "analysis"); an != nil {
+			sendsVia := func(f *ssa.Function, fv *types.Var) bool {
+				hit := false
+				for _, g := range append([]*ssa.Function{f}, allAnon(f)...) {
+					for _, call := range engine.CallsTo(g, sendObj) {
+						if engine.Provenance(engine.CallArgs(call)[0], engine.ProvOpts{}).HasField(fv) {
+							hit = true
+						}
+					}
+				}
+				return hit
+			}
+			for _, ac := range engine.CallsTo(hv, an) {
+				n++
+				c.AllPaths("pkg/nathole.Controller.HandleVisitor>both-parties-per-path", engine.PathCheck{Fn: hv, From: ac, Sink: engine.IsReturn,
+					Event: func(in ssa.Instruction) string {
+						call, ok := in.(ssa.CallInstruction)
+						if !ok {
+							return ""
+						}
+						if engine.IsCallTo(in, sendObj) {
+							src := engine.Provenance(engine.CallArgs(call)[0], engine.ProvOpts{})
+							if src.HasField(vtF) {
+								return "to-visitor"
+							}
+							if src.HasField(ctF) {
+								return "to-client"
+							}
+							return ""
+						}
+						// a closure started for sending (errgroup.Go / go)
+						for _, a := range call.Common().Args {
+							if mc, ok := a.(*ssa.MakeClosure); ok {
+								if cf, ok := mc.Fn.(*ssa.Function); ok {
+									v, k := sendsVia(cf, vtF), sendsVia(cf, ctF)
+									switch {
+									case v && k:
+										return "to-both"
+									case v:
+										return "to-visitor"
+									case k:
+										return "to-client"
+									}
+								}
+							}
+						}
+						return ""
+					},
+					Pred: func(st *engine.PathState) string {
+						v := st.HasEvent("to-visitor") || st.HasEvent("to-both")
+						k := st.HasEvent("to-client") || st.HasEvent("to-both")
+						if !v || !k {
+							return fmt.Sprintf("HandleVisitor returns after the analysis without a response to both controls (visitor=%v, owner=%v): one party keeps waiting for instructions that never come", v, k)
+						}
+						return ""
+					}}, "both controls are answered on every path after the analysis")
+			}
+		}
+		c.Floor(n, 6)
 	}
 }
 
